@@ -100,4 +100,48 @@ def clear (M : Nat) (s : Shared) : Shared :=
 
 def init (M : Nat) : Shared := { rd := 0, wr := 0, data := List.replicate M 0 }
 
+
+/-! ## the two lock calls of every operation (`p_shm_lock` … `p_shm_unlock`), with scripted failures -/
+
+/-- scripted results of the `p_shm_lock` / `p_shm_unlock` of one operation -/
+structure LockScript where
+  lockFails : Bool := false
+  unlockFails : Bool := false
+deriving Repr, DecidableEq
+
+/-- `p_shm_buffer_write`: invalid argument → −1 before the lock; a failing lock → −1, nothing read or written;
+    a failing unlock → −1 AFTER the bytes (if they fit) have been stored and `write_pos` moved -/
+def writeL (ls : LockScript) (M : Nat) (s : Shared) (xs : List UInt8) : Res Int :=
+  if xs.length = 0 then .ok s (-1)
+  else if ls.lockFails then .ok s (-1)
+  else match write M s xs with
+    | .ok s' r => .ok s' (if ls.unlockFails then -1 else r)
+    | .fault => .fault
+
+def writeZerosL (ls : LockScript) (M : Nat) (s : Shared) (n : Nat) : Res Int :=
+  if n = 0 then .ok s (-1)
+  else if ls.lockFails then .ok s (-1)
+  else match writeZeros M s n with
+    | .ok s' r => .ok s' (if ls.unlockFails then -1 else r)
+    | .fault => .fault
+
+/-- `p_shm_buffer_read`: as `writeL`; after a failing unlock the bytes are consumed although −1 is returned -/
+def readL (ls : LockScript) (M : Nat) (s : Shared) (len : Nat) : Res (List UInt8 × Int) :=
+  if len = 0 then .ok s ([], -1)
+  else if ls.lockFails then .ok s ([], -1)
+  else match read M s len with
+    | .ok s' (o, r) => if ls.unlockFails then .ok s' ([], -1) else .ok s' (o, r)
+    | .fault => .fault
+
+/-- `p_shm_buffer_get_free_space` / `…_used_space`: −1 when the lock or the unlock fails -/
+def freeSpaceL (ls : LockScript) (M : Nat) (s : Shared) : Int :=
+  if ls.lockFails || ls.unlockFails then -1 else freeSpace M s
+
+def usedSpaceL (ls : LockScript) (M : Nat) (s : Shared) : Int :=
+  if ls.lockFails || ls.unlockFails then -1 else usedSpace M s
+
+/-- `p_shm_buffer_clear`: nothing is cleared when the lock fails; a failing unlock is only logged -/
+def clearL (ls : LockScript) (M : Nat) (s : Shared) : Shared :=
+  if ls.lockFails then s else clear M s
+
 end PV.SB
